@@ -941,4 +941,49 @@ theorem mul_const_accuracy (f : Fmt) (hp : 1 ≤ f.p) (s1 s2 : Bool) (m1 m2 : Na
         linarith
     _ = (f.u * (1 + c) + c) * (|x| * A) := by ring
 
+/-- The same for a kernel `x ↦ x / K` (`c < 1`): within relative `u·(1+c') + c'` of `x / A`, where
+`c' = c / (1 - c)`. -/
+theorem div_const_accuracy (f : Fmt) (hp : 1 ≤ f.p) (s1 s2 : Bool) (m1 m2 : Nat) (e1 e2 : Int)
+    (h1 : 0 < m1) (h2 : 0 < m2) (A c : ℝ) (hA : 0 < A) (hc : 0 ≤ c) (hc1 : c < 1)
+    (hK : |toReal (fin s2 m2 e2) - A| ≤ c * A)
+    (hnorm : f.minNormal ≤ |toReal (fin s1 m1 e1) / toReal (fin s2 m2 e2)|)
+    {r : Fl} (hr : div f (fin s1 m1 e1) (fin s2 m2 e2) = r) (hfin : r.isFinite = true) :
+    |toReal r - toReal (fin s1 m1 e1) / A| ≤
+      (f.u * (1 + c / (1 - c)) + c / (1 - c)) * (|toReal (fin s1 m1 e1)| / A) := by
+  set x := toReal (fin s1 m1 e1) with hx
+  set K := toReal (fin s2 m2 e2) with hKd
+  have hu : 0 ≤ f.u := by unfold Fmt.u; positivity
+  have h1c : 0 < 1 - c := by linarith
+  have hdiv := div_rel f hp s1 s2 m1 m2 e1 e2 h1 h2 hnorm hr hfin
+  -- K ≥ (1 - c)·A > 0
+  have hKlo : (1 - c) * A ≤ K := by
+    have := (abs_le.mp hK).1; linarith
+  have hKpos : 0 < K := lt_of_lt_of_le (by positivity) hKlo
+  have hinv : |1 / K - 1 / A| ≤ c / (1 - c) * (1 / A) := by
+    have e : 1 / K - 1 / A = (A - K) / (K * A) := by field_simp
+    rw [e, abs_div, abs_of_pos (by positivity : 0 < K * A), abs_sub_comm]
+    rw [div_le_iff₀ (by positivity)]
+    calc |K - A| ≤ c * A := hK
+      _ = c / (1 - c) * (1 / A) * ((1 - c) * A * A) := by field_simp
+      _ ≤ c / (1 - c) * (1 / A) * (K * A) := by
+          apply mul_le_mul_of_nonneg_left _ (by positivity)
+          exact mul_le_mul_of_nonneg_right hKlo hA.le
+  have hxK : |x / K - x / A| ≤ c / (1 - c) * (|x| / A) := by
+    have e : x / K - x / A = x * (1 / K - 1 / A) := by ring
+    rw [e, abs_mul]
+    calc |x| * |1 / K - 1 / A| ≤ |x| * (c / (1 - c) * (1 / A)) := mul_le_mul_of_nonneg_left hinv (abs_nonneg _)
+      _ = c / (1 - c) * (|x| / A) := by ring
+  have hxKabs : |x / K| ≤ (1 + c / (1 - c)) * (|x| / A) := by
+    have h0 : |x / A| = |x| / A := by rw [abs_div, abs_of_pos hA]
+    have := abs_sub_abs_le_abs_sub (x / K) (x / A)
+    rw [h0] at this
+    linarith
+  calc |toReal r - x / A| = |(toReal r - x / K) + (x / K - x / A)| := by ring_nf
+    _ ≤ |toReal r - x / K| + |x / K - x / A| := abs_add_le _ _
+    _ ≤ f.u * |x / K| + c / (1 - c) * (|x| / A) := add_le_add hdiv hxK
+    _ ≤ f.u * ((1 + c / (1 - c)) * (|x| / A)) + c / (1 - c) * (|x| / A) := by
+        have := mul_le_mul_of_nonneg_left hxKabs hu
+        linarith
+    _ = (f.u * (1 + c / (1 - c)) + c / (1 - c)) * (|x| / A) := by ring
+
 end PhQVerif.Fl
